@@ -129,6 +129,32 @@ pub fn ast_opts(which: Which) -> Opts {
     o
 }
 
+/// denser layouts: more shared tag lines, straddling children, text glued to tags, multi-byte words
+pub fn dense_opts(which: Which) -> Opts {
+    let mut o = ast_opts(which);
+    o.shared_pct = 45;
+    o.straddle_pct = 25;
+    o.adjacent_pct = 55;
+    o.multibyte_pct = 35;
+    o.unwrap_pct = 55;
+    o.max_top = 3;
+    o
+}
+
+pub fn gen_ast_dense(t: &mut Tape, which: Which) -> AstCase {
+    let o = dense_opts(which);
+    let (mut doc, spell) = astgen::gen_doc(t, &o);
+    let mut cfg = astgen::gen_acfg(t);
+    if which != Which::C04 && t.chance(60) {
+        cfg.now_idx = 4;
+        cfg.targets = 7;
+    }
+    if which == Which::C04 {
+        neutralize(&mut doc, &spell, &cfg, t);
+    }
+    AstCase { doc, spell, cfg }
+}
+
 pub fn gen_ast(t: &mut Tape, which: Which) -> AstCase {
     let o = ast_opts(which);
     let (mut doc, spell) = astgen::gen_doc(t, &o);
@@ -537,6 +563,7 @@ pub fn check(ctx: &mut Ctx, id: &'static str) {
     }
     let (q, th) = (300_000u64, 3_000_000u64);
     ctx.random("ast-documents", 400, q, th, |t| gen_ast(t, which), |c, obs| oracle_ast(c, which, obs));
+    ctx.random("dense-ast-documents", 300, q, th, |t| gen_ast_dense(t, which), |c, obs| oracle_ast(c, which, obs));
     ctx.random("junk-soup", 200, q, th, |t| junkgen::gen_soup(t, junkgen::JUNK_DELIMS, true), |c, obs| oracle_junk(c, which, obs));
     let mo = {
         let mut o = ast_opts(Which::C02);
@@ -552,7 +579,7 @@ pub fn check(ctx: &mut Ctx, id: &'static str) {
         for (i, (ds, de)) in junkgen::JUNK_DELIMS.iter().enumerate() {
             seeds.push(crate::fuzzglue::encode("model", i as u8, 0x10, &format!("a\n  {ds}rm name='a'{de}\n  x\n  {ds}/rm{de}\nb {ds}tl to='2001-01-01 00:00:00'{de}y{ds}/tl{de} c\n{ds}rm name='a' unwrap-block{de}\nif {{\n  z\n}}\n{ds}/rm{de}\n")));
         }
-        ctx.fuzz_campaign("model", 250_000, 512, seeds, move |data| crate::fuzzglue::fuzz_one("model", id, data));
+        ctx.fuzz_campaign("model", 150_000, 512, seeds, move |data| crate::fuzzglue::fuzz_one("model", id, data));
     }
     // generator health: discards must stay moderate
     let ex: u64 = ctx.stats.excluded.iter().filter(|(k, _)| k.as_str() != "something-is-ready").map(|(_, v)| *v).sum();
@@ -562,7 +589,7 @@ pub fn check(ctx: &mut Ctx, id: &'static str) {
 pub fn replay(id: &str, sub: &str, case: &Value, obs: &mut Obs) -> Result<Verdict, String> {
     let which = Which::from(id);
     match sub {
-        "ast-documents" => replay_case::<AstCase, _>(case, obs, |c, obs| {
+        "ast-documents" | "dense-ast-documents" => replay_case::<AstCase, _>(case, obs, |c, obs| {
             obs.eval();
             oracle_ast(c, which, obs)
         }),
